@@ -219,6 +219,16 @@ WASI_CASES = r"""
 """
 
 
+WASI_CASES += r"""
+    case 'H': { /* host view of a WASI descriptor: H <wasi fd> [chmod]  -> fstat of the native descriptor the table holds (times in ns);
+                   with a second token the mode is toggled first (a status-only change: ctime moves, mtime does not) */
+      WasiFileDescriptor dsc; struct stat hs; U32 wfd = (U32)strtoul(tok[1], NULL, 0);
+      if (!wasiFileDescriptorGet(wfd, &dsc) || dsc.fd < 0 || fstat(dsc.fd, &hs) != 0) { fprintf(OUT, "%d H none\n", step); break; }
+      if (nt > 2) { fchmod(dsc.fd, (hs.st_mode & 0777) ^ 0020); fstat(dsc.fd, &hs); }
+      fprintf(OUT, "%d H %lld %lld %lld %lld %lld\n", step, (long long)hs.st_atim.tv_sec * 1000000000LL + hs.st_atim.tv_nsec,
+              (long long)hs.st_mtim.tv_sec * 1000000000LL + hs.st_mtim.tv_nsec, (long long)hs.st_ctim.tv_sec * 1000000000LL + hs.st_ctim.tv_nsec,
+              (long long)hs.st_size, (long long)hs.st_nlink); break; }
+"""
 WASI_CASES += open(os.path.join(env.VERIF, 'harness', 'wasi_readdir_case.inc')).read()
 WASI_CASES += open(os.path.join(env.VERIF, 'harness', 'wasi_c15_cases.inc')).read()
 WASI_PRE = open(os.path.join(env.VERIF, 'harness', 'wasi_c15_pre.inc')).read()
@@ -330,7 +340,7 @@ def gen_driver(plan, module_name, header, multi=False, shared_ok=True, wasi=Fals
     tail = DRIVER_TAIL.replace('@M@', M).replace('@WASICASES@', WASI_CASES if wasi else '')
     if wasi:
         o.insert(1, WASI_PRE)
-        o.insert(1, '#include "wasi.h"\nstatic int wasiArgc; static char** wasiArgv; static char** wasiEnvp;\n'
+        o.insert(1, '#include <sys/stat.h>\n#include "wasi.h"\nstatic int wasiArgc; static char** wasiArgv; static char** wasiEnvp;\n'
                     'static wasmMemory* getMem(int inst, int ref);\n'
                     'wasmMemory* wasiMemory(void* instance) { int k = 0; if ((char*)instance >= (char*)insts && (char*)instance < (char*)(insts + NINST)) k = (int)((Inst*)instance - insts); return getMem(k, 0); }\n')
     tail = tail.replace('int main(int argc, char** argv) {\n', 'int main(int argc, char** argv) {\n  initImports();\n', 1)
@@ -373,9 +383,9 @@ def compile_c(d, sources, exe, cc='gcc', flags=('-O0',), extra=(), timeout=600, 
 
 
 def build_and_run(w2c2, wasm_bytes, plan, script, d, name='m', opts=(), cc='gcc', cflags=('-O0',), cdefs=(),
-                  run_env=None, timeout=300, link=(), keep=False):
+                  run_env=None, timeout=300, link=(), keep=False, translate_env=None):
     """Translate, compile with generated driver, run the script. Returns (stage, output_lines|message, Result)."""
-    t = translate(w2c2, wasm_bytes, d, name, opts)
+    t = translate(w2c2, wasm_bytes, d, name, opts, envx=translate_env)
     if t.rc != 0:
         return ('translate', 'rc=%s stderr=%s' % (t.rc, t.err[-2000:]), t)
     M = t.name
